@@ -13,7 +13,17 @@
      op   = (n0 x<type> n<label>)      SubscribeEvent / SubscribeMessages
             (n1 n<label>)              SubscribeToAll
             (n2 n<k>)                  call the remover returned by the k-th subscription
-            (n3 x<type>)               an event of that type arrives
+            (n3 x<type> n<more>)       an event of that type arrives (more, harness only: it arrives in one
+                                       chunk with the event that follows, i.e. the parser holds several
+                                       complete events at once)
+            (n4 n<how>)                the request's context ends - cancelled by the harness goroutine between
+                                       two events, or from inside the next callback invoked (how, and the kind
+                                       of context given as the fourth element of the input: harness only).
+                                       The scripted body keeps delivering, so events keep being parsed and
+                                       dispatched.  The registry is not touched by it (client_connection.go:
+                                       144-160, dispatch does not look at the context) and the property does not
+                                       mention it: being subscribed ends with the remover.  For model and
+                                       oracle this operation is a no-op.
    output : ((opres ...) (seen ...))
      opres = ((n<typed> n<all> n<types>) ((n<sub> n<label>) ...))
              registry sizes after the operation (VerifCallbackCount) and, for an event, who
@@ -44,6 +54,7 @@ Definition dec_cb_op (handles : list handle) (o : val) : option op :=
   | 0%N => Some (SubEvent (as_b (nth_val 1 o)) (as_n (nth_val 2 o)))
   | 1%N => Some (SubAll (as_n (nth_val 1 o)))
   | 2%N => match nth_error handles (as_nat (nth_val 1 o)) with Some h => Some (Remove h) | None => None end
+  | 4%N => None   (* the request's context ends: no operation of the registry *)
   | _ => Some (Dispatch (as_b (nth_val 1 o)))
   end.
 
@@ -146,7 +157,9 @@ Definition run_callbacks (i : val) : val :=
    exactly those in force with its exact type or to-all, once each; sizes reported by the
    registry must be those of the set in force (nothing leaks after a removal); every
    subscription sees positions in increasing order and is invoked exactly at the events
-   whose per-event list names it. *)
+   whose per-event list names it.  The end of the request's context (n4) is none of the
+   operations the property names: it changes nothing about who is in force, so every event
+   dispatched after it is owed to the same subscriptions as before it - no more, no less. *)
 Record osub := mko { o_num : nat; o_all : bool; o_type : bytes; o_label : N }.
 
 Definition oracle_step (st : nat * list osub) (o : val) : nat * list osub :=
